@@ -7,6 +7,7 @@
 import Reclass.Driver.Codec
 import Reclass.Driver.InvOps
 import Reclass.Driver.CfgOps
+import Reclass.Driver.PyOps
 namespace Reclass.Ops
 open Lean Reclass Reclass.Codec
 
@@ -89,6 +90,7 @@ def dispatch (j : Json) : Except String Json := do
   | "inventory" => InvOps.opInventory j
   | "abs" => opAbs j
   | "config" => CfgOps.opConfig j
+  | "py_inventory" => PyOps.opPyInventory j
   | _ => throw s!"unknown op {op}"
 
 def handleLine (line : String) : String :=
